@@ -119,8 +119,34 @@ mod unit;
 mod utils;
 mod value;
 
+/// Spans computed on re-lexed text (e.g. an interpolated selector or query) are
+/// approximate and may end up inside a multi-byte character, which `CodeMap`
+/// refuses to look up. Widen such a span to the enclosing character boundaries.
+fn snap_to_char_boundaries(map: &CodeMap, span: codemap::Span) -> codemap::Span {
+    let file = map.find_file(span.low());
+    let source = file.source();
+    let mut low = (span.low() - file.span.low()) as usize;
+    let mut high = (span.high() - file.span.low()) as usize;
+
+    while !source.is_char_boundary(low) {
+        low -= 1;
+    }
+
+    while !source.is_char_boundary(high) {
+        high += 1;
+    }
+
+    file.span.subspan(low as u64, high as u64)
+}
+
 fn raw_to_parse_error(map: &CodeMap, err: Error, unicode: bool) -> Box<Error> {
+    // I/O and UTF-8 errors raised while loading an imported file carry no span
+    if !err.is_raw() {
+        return Box::new(err);
+    }
+
     let (message, span) = err.raw();
+    let span = snap_to_char_boundaries(map, span);
     Box::new(Error::from_loc(message, map.look_up_span(span), unicode))
 }
 
